@@ -108,6 +108,16 @@ int main() {
                   guard([&]() { return i2s(GEOSOrientationIndex_r(h, a.x, a.y, b.x, b.y, c.x, c.y)); }) + " " +
                   guard([&]() { return i2s(CGAlgorithmsDD::orientationIndex(b.x, b.y, a.x, a.y, c.x, c.y)); }) + " " +
                   guard([&]() { return i2s(CGAlgorithmsDD::orientationIndex(a.x, a.y, c.x, c.y, b.x, b.y)); });
+        } else if (tag == "OP") {
+            // all six argument orders of one triple: index and filter answer for abc acb bac bca cab cba
+            Coordinate q[3] = { r.xp(), r.xp(), r.xp() };
+            static const int P[6][3] = {{0,1,2},{0,2,1},{1,0,2},{1,2,0},{2,0,1},{2,1,0}};
+            for (int i = 0; i < 6; i++) {
+                const Coordinate &a = q[P[i][0]], &b = q[P[i][1]], &c = q[P[i][2]];
+                if (i) out += " ";
+                out += guard([&]() { return i2s(GEOSOrientationIndex_r(h, a.x, a.y, b.x, b.y, c.x, c.y)); }) + ":" +
+                       i2s(CGAlgorithmsDD::orientationIndexFilter(a.x, a.y, b.x, b.y, c.x, c.y));
+            }
         } else if (tag == "D") {
             double a = r.x(), b = r.x(), c = r.x(), d = r.x();
             out = guard([&]() { return i2s(CGAlgorithmsDD::signOfDet2x2(a, b, c, d)); });
